@@ -434,3 +434,38 @@ package fun
 //@   ensures skipped2: forall k: int :: old(calls(next)) <= k && k < calls(next) - 1 ==> errIs(callret1(next, k), ErrIteratorSkip)
 //@   loop 1 invariant atomicval(stage) == 0 && old(atomicval(stage)) == 0 && calls(pf) >= old(calls(pf)) && calls(next) == old(calls(next)) && (forall k: int :: old(calls(pf)) <= k && k < calls(pf) ==> errIs(callret1(pf, k), ErrIteratorSkip))
 //@   loop 2 invariant atomicval(stage) == 2 && (old(atomicval(stage)) == 0 || old(atomicval(stage)) == 2) && calls(next) >= old(calls(next)) && (old(atomicval(stage)) == 2 ==> calls(pf) == old(calls(pf))) && (forall k: int :: old(calls(next)) <= k && k < calls(next) ==> errIs(callret1(next, k), ErrIteratorSkip)) && (forall k: int :: old(calls(pf)) <= k && k < calls(pf) - 1 ==> errIs(callret1(pf, k), ErrIteratorSkip))
+
+// Transform.Producer (map with skip): consumes input elements until one whose
+// input error and transform error are both nil: its transform result is
+// returned; elements whose input error or transform error is a skip are
+// dropped; any other error ends the call with that error. The transform is
+// applied exactly to the input elements that arrived without error.
+//@ func (Transform).Producer$1
+//@   props C02
+//@   option noframe
+//@   modifies calls(prod), calls(mpf)
+//@   requires prod != nil && mpf != nil && ctx != nil
+//@   ensures mapped: result1 == nil ==> calls(prod) > old(calls(prod)) && calls(mpf) > old(calls(mpf)) && callret1(prod, calls(prod) - 1) == nil && callret1(mpf, calls(mpf) - 1) == nil && result0 == callret0(mpf, calls(mpf) - 1)
+//@   ensures stopped: result1 != nil ==> !errIs(result1, ErrIteratorSkip) && calls(prod) > old(calls(prod)) && (result1 == callret1(prod, calls(prod) - 1) || (callret1(prod, calls(prod) - 1) == nil && result1 == callret1(mpf, calls(mpf) - 1)))
+//@   ensures dropped: forall k: int :: old(calls(prod)) <= k && k < calls(prod) - 1 ==> callret1(prod, k) == nil || errIs(callret1(prod, k), ErrIteratorSkip)
+//@   ensures transformed: forall k: int :: old(calls(mpf)) <= k && k < calls(mpf) - (result1 == nil ? 1 : 0) - (result1 != nil && callret1(prod, calls(prod) - 1) == nil ? 1 : 0) ==> errIs(callret1(mpf, k), ErrIteratorSkip)
+//@   loop 1 invariant calls(prod) >= old(calls(prod)) && calls(mpf) >= old(calls(mpf)) && (forall k: int :: old(calls(prod)) <= k && k < calls(prod) ==> callret1(prod, k) == nil || errIs(callret1(prod, k), ErrIteratorSkip)) && (forall k: int :: old(calls(mpf)) <= k && k < calls(mpf) ==> errIs(callret1(mpf, k), ErrIteratorSkip))
+
+// Converters: the wrapped function is applied once, its value passed through;
+// ConverterOk turns "not ok" into a skip.
+//@ func Converter$1
+//@   props C02
+//@   requires op != nil
+//@   ensures calls(op) == old(calls(op)) + 1 && result1 == nil && result0 == callret0(op, calls(op) - 1)
+
+//@ func ConverterOk$1
+//@   props C02
+//@   requires op != nil
+//@   ensures calls(op) == old(calls(op)) + 1 && result0 == callret0(op, calls(op) - 1)
+//@   ensures callret1(op, calls(op) - 1) ==> result1 == nil
+//@   ensures !callret1(op, calls(op) - 1) ==> result1 == ErrIteratorSkip
+
+//@ func ConverterErr$1
+//@   props C02
+//@   requires op != nil
+//@   ensures calls(op) == old(calls(op)) + 1 && result0 == callret0(op, calls(op) - 1) && result1 == callret1(op, calls(op) - 1)
